@@ -90,6 +90,28 @@ Plan tostring_generate(uint64_t base, const std::string &prop, uint64_t index, i
             p.faults.push_back(fmt("shape:dense=%d*%u", n, kind));
         }
     }
+    {
+        // arrays nested up to the format's limit of 255 per object level (they do not count against max_depth), with objects and
+        // scalars as elements on the way down: whatever the renderer keeps per array level is exercised at 127 / 128 / 255
+        Rng rx = r.fork("deeparrays");
+        if (rx.chance(1, 20)) {
+            static const int T[] = {3, 17, 64, 126, 127, 128, 129, 130, 200, 254, 255};
+            int depth = T[rx.below(11)];
+            Node top; top.t = V_ARR; Node *cur = &top;
+            for (int i = 1; i < depth; i++) {
+                bool deco = rx.chance(1, 4) || i + 3 >= depth || (i >= 125 && i <= 131);
+                if (deco && rx.chance(1, 2)) { Node o; o.t = V_OBJ; if (rx.chance(1, 2)) { Node v; v.t = V_INT; v.i = i; v.name = Bytes{'k'}; o.kids.push_back(v); } cur->kids.push_back(o); }
+                Node c; c.t = V_ARR; cur->kids.push_back(c);
+                size_t at = cur->kids.size() - 1;
+                if (deco) { Node o; o.t = rx.chance(1, 2) ? V_OBJ : V_ARR; cur->kids.push_back(o); Node s; s.t = V_BOOL; s.b = true; cur->kids.push_back(s); }
+                cur = &cur->kids[at];
+            }
+            { Node o; o.t = V_OBJ; cur->kids.push_back(o); Node s; s.t = V_INT; s.i = 7; cur->kids.push_back(s); }
+            root = Node(); root.t = p.root ? V_ARR : V_OBJ;
+            if (p.root) root = top; else { top.name = Bytes{'d'}; root.kids.push_back(top); }
+            p.faults.push_back(fmt("shape:deep_arrays=%d", depth));
+        }
+    }
     encode(root, p.doc);
     p.note = tree_text(root);
     p.max_depth = 10 + (int)rd.below(3);
